@@ -70,3 +70,102 @@ Proof.
   repeat match type of H with (if ?b then _ else _) = _ => destruct b eqn:?; [discriminate|] end.
   apply (eb_core_right_corner nf ((nev + nsplit) mod 4294967296) rm syms events bits n sf); try lia; [apply Z.mod_pos_bound; lia|exact H].
 Qed.
+
+(** * Interior start faces are glued to MATCHING edges (since the guard Vertex(Previous(corner_a)) == vert_p, /repo a3a73f7)
+
+    [EE s m]: every pair of opposite corners among the first m corners faces the same edge with reversed orientation.
+    [start_loop_EE]: the start-face phase preserves it - for every accepted stream, whatever its start-face bits.  (Before the
+    guard it did not: symbols E,L + one interior start face were accepted with Opposite(6) = 3 on different edges.) *)
+Definition EE (s : st) (m : Z) : Prop := forall x, 0 <= x < m -> copp s x <> -1 ->
+  c2v s (next_c x) = c2v s (prev_c (copp s x)) /\ c2v s (prev_c x) = c2v s (next_c (copp s x)).
+
+Lemma prev_next : forall c, 0 <= c -> prev_c (next_c c) = c.
+Proof. intros c Hc. apply (next_c_spec c Hc). Qed.
+
+Section StartEE.
+Variables NC maxv : Z.
+
+Lemma start_face_EE : forall nf s a s', NC = 3 * nf -> W NC maxv (nfaces s) s -> FJ (nfaces s) s -> 0 <= a < 3 * nfaces s ->
+  start_face NC maxv nf s a = Ok s' -> EE s (3 * nfaces s) -> EE s' (3 * nfaces s').
+Proof.
+  intros nf s a s' HNC HW HJ Ha H HE.
+  assert (HN : NI (nfaces s) s) by (intros c Hc; apply (j_reach _ _ HJ c Hc)).
+  pose proof (start_face_W NC maxv nf s a s' HNC HW Ha H) as (HW' & Enf & _).
+  destruct (start_face_shape NC maxv nf s a s' HNC HW HN Ha H)
+    as (b & c & Hb & Hc & Fa & Fb & Fc & Ec & Ev & El & En & _ & Eg & Eb & Ecc & Dab & Dac & Dbc).
+  rewrite Enf. set (f := nfaces s) in *.
+  pose proof (w_nf _ _ _ _ HW) as Hnf.
+  pose proof (next_c_rng a f Ha) as Hna. pose proof (next_c_rng b f Hb) as Hnb. pose proof (next_c_rng c f Hc) as Hnc.
+  pose proof (prev_c_rng a f Ha) as Hpa. pose proof (prev_c_rng b f Hb) as Hpb. pose proof (prev_c_rng c f Hc) as Hpc.
+  destruct (new_face_corners f ltac:(lia)) as (N0 & N1 & N2 & P0 & P1 & P2).
+  assert (Gc : forall x, 0 <= x < 3 * f -> c2v s' x = c2v s x) by (intros x Hx; rewrite Ev; rewrite !upd_other by lia; reflexivity).
+  assert (V0 : c2v s' (3 * f) = c2v s (next_c b)) by (rewrite Ev; rewrite !upd_other by lia; apply upd_same).
+  assert (V1 : c2v s' (3 * f + 1) = c2v s (next_c c)) by (rewrite Ev; rewrite upd_other by lia; apply upd_same).
+  assert (V2 : c2v s' (3 * f + 2) = c2v s (next_c a)) by (rewrite Ev; apply upd_same).
+  (* the left-most corners that led to b and c belong to the vertices they were looked up for *)
+  pose proof (w_vr _ _ _ _ HW _ Hna) as Hvn. pose proof (w_vr _ _ _ _ HW _ Hnb) as Hvx.
+  assert (Ln : vc s (c2v s (next_c a)) <> -1) by (apply (HN _ Hna)).
+  assert (Lx : vc s (c2v s (next_c b)) <> -1) by (apply (HN _ Hnb)).
+  assert (Lnr : 0 <= vc s (c2v s (next_c a)) < 3 * f) by (destruct (w_lr _ _ _ _ HW _ Hvn); [congruence|assumption]).
+  assert (Lxr : 0 <= vc s (c2v s (next_c b)) < 3 * f) by (destruct (w_lr _ _ _ _ HW _ Hvx); [congruence|assumption]).
+  assert (Pb : c2v s (prev_c b) = c2v s (next_c a)).
+  { rewrite Eb, prev_next by lia. apply (j_vc _ _ HJ); [exact Hvn|exact Ln]. }
+  assert (Pc : c2v s (prev_c c) = c2v s (next_c b)).
+  { rewrite Ecc, prev_next by lia. apply (j_vc _ _ HJ); [exact Hvx|exact Lx]. }
+  intros x Hx Ho.
+  destruct (Z_lt_dec x (3 * f)) as [Lo|Hi].
+  - (* an old corner *)
+    pose proof (next_c_rng x f ltac:(lia)) as Hnx. pose proof (prev_c_rng x f ltac:(lia)) as Hpx.
+    rewrite (Gc (next_c x)), (Gc (prev_c x)) by lia.
+    destruct (Z.eq_dec x c) as [->|Nc].
+    { rewrite Ec, upd_same, P2, N2, V1, V0. split; [reflexivity|exact Pc]. }
+    destruct (Z.eq_dec x b) as [->|Nb].
+    { assert (Q : copp s' b = 3 * f + 1) by (rewrite Ec; rewrite !upd_other by lia; apply upd_same).
+      rewrite Q, P1, N1, V0, V2. split; [reflexivity|exact Pb]. }
+    destruct (Z.eq_dec x a) as [->|Na].
+    { assert (Q : copp s' a = 3 * f) by (rewrite Ec; rewrite !upd_other by lia; apply upd_same).
+      rewrite Q, P0, N0, V2, V1. split; [reflexivity|exact Eg]. }
+    assert (Q : copp s' x = copp s x) by (rewrite Ec; rewrite !upd_other by lia; reflexivity).
+    rewrite Q in *. destruct (w_pi _ _ _ _ HW x ltac:(lia)) as [Z|(R & _)]; [congruence|].
+    pose proof (next_c_rng _ f R). pose proof (prev_c_rng _ f R).
+    rewrite !Gc by lia. apply HE; [lia|exact Ho].
+  - assert (x = 3 * f \/ x = 3 * f + 1 \/ x = 3 * f + 2) as [-> | [-> | ->]] by lia.
+    + assert (Q : copp s' (3 * f) = a) by (rewrite Ec; rewrite !upd_other by lia; apply upd_same).
+      rewrite Q, N0, P0, V1, V2, !Gc by lia. split; [symmetry; exact Eg|reflexivity].
+    + assert (Q : copp s' (3 * f + 1) = b) by (rewrite Ec; rewrite !upd_other by lia; apply upd_same).
+      rewrite Q, N1, P1, V2, V0, !Gc by lia. split; [symmetry; exact Pb|reflexivity].
+    + assert (Q : copp s' (3 * f + 2) = c) by (rewrite Ec; rewrite upd_other by lia; apply upd_same).
+      rewrite Q, N2, P2, V0, V1, !Gc by lia. split; [symmetry; exact Pc|reflexivity].
+Qed.
+
+Lemma start_loop_EE : forall nf bits stk k s s', NC = 3 * nf -> W NC maxv (nfaces s) s -> FJ (nfaces s) s ->
+  Forall (fun c => 0 <= c < 3 * nfaces s) stk ->
+  start_loop NC maxv nf bits k stk s = Ok s' -> EE s (3 * nfaces s) -> EE s' (3 * nfaces s').
+Proof.
+  induction stk as [|a r IH]; intros k s s' HNC HW HJ Hstk H HE; cbn [start_loop] in H.
+  - apply Ok_inj in H. subst s'. exact HE.
+  - inversion Hstk as [|x y Ha Hr]; subst x y. destruct (bits k).
+    + mstep H. pose proof (start_face_W NC maxv nf s a a0 HNC HW Ha E) as (A & B & _).
+      pose proof (start_face_FJ NC maxv nf s a a0 HNC HW HJ Ha E) as C.
+      pose proof (start_face_EE nf s a a0 HNC HW HJ Ha E HE) as D.
+      eapply IH; [exact HNC|exact A|exact C| |exact H|exact D]. eapply Forall_mono3; [|exact Hr]. lia.
+    + eapply IH; [exact HNC|apply W_with_inits; exact HW| |exact Hr|exact H|exact HE].
+      destruct HJ. constructor; sproj; assumption.
+Qed.
+End StartEE.
+
+(** from the initial state: whatever the symbol phase built, the start-face phase keeps opposite corners on shared edges *)
+Theorem eb_start_faces_share_edges : forall nf maxv rm syms events bits s1 s2, 0 <= nf -> 0 <= maxv -> Z.of_nat (length syms) <= nf ->
+  sym_loop (3 * nf) maxv rm (Z.of_nat (length syms)) syms 0 (init_st events) = Ok s1 ->
+  start_loop (3 * nf) maxv nf bits O (stack s1) s1 = Ok s2 ->
+  EE s1 (3 * nfaces s1) -> EE s2 (3 * nfaces s2).
+Proof.
+  intros nf maxv rm syms events bits s1 s2 Hnf Hmv Hns E E1 HE.
+  set (NC := 3 * nf) in *. set (s0 := init_st events) in *.
+  assert (HW0 : W NC maxv (nfaces s0) s0) by (apply W_init; unfold NC; lia).
+  assert (HF0 : FI (nfaces s0) s0) by apply FI_init.
+  assert (HN0 : 3 * (nfaces s0 + Z.of_nat (length syms)) <= NC) by (unfold NC, s0; cbn [nfaces init_st]; lia).
+  destruct (sym_loop_W NC maxv rm _ syms 0 s0 s1 HW0 HN0 E) as (HW1 & _).
+  pose proof (sym_loop_FI NC maxv rm _ syms 0 s0 s1 HW0 HF0 HN0 E) as HF1.
+  exact (start_loop_EE NC maxv nf bits (stack s1) O s1 s2 eq_refl HW1 (FI_FJ _ _ HF1) (w_stack _ _ _ _ HW1) E1 HE).
+Qed.
